@@ -197,7 +197,7 @@ theorem alg_insert (l b : Bits) (p : Nat) (h : p ≤ l.length) :
   rw [setSlice_nonneg l b p p (le_refl _) h]
   rfl
 
-theorem alg_rol_eq (l : Bits) (k : Int) (s e : Option Int) (h : rotEmptyRange l k s e = false) :
+theorem alg_rol_eq (l : Bits) (k : Int) (s e : Option Int) :
     Alg.rol l k s e = Spec.rol l k s e := by
   unfold Alg.rol Spec.rol
   split
@@ -209,12 +209,13 @@ theorem alg_rol_eq (l : Bits) (k : Int) (s e : Option Int) (h : rotEmptyRange l 
   rcases validateSlice_cases l.length s e with ⟨a, z, hv, haz, hz⟩ | hv
   · rw [hv]
     simp only
-    have hne : a ≠ z := by
-      unfold rotEmptyRange at h
-      rw [hv] at h
-      simp at h
-      exact h (by intro h0; apply h1; simp [h0]) (by omega)
-    rw [if_neg (by omega)]
+    by_cases hne : z - a = 0
+    · rw [if_pos hne]
+      have haz' : a = z := by omega
+      subst haz'
+      simp only [slc_self, List.drop_nil, List.take_nil, List.append_nil]
+      rw [List.take_append_drop]
+    rw [if_neg hne]
     have hr : k.toNat % (z - a) < z - a := Nat.mod_lt _ (by omega)
     generalize k.toNat % (z - a) = r at hr
     split
@@ -228,7 +229,7 @@ theorem alg_rol_eq (l : Bits) (k : Int) (s e : Option Int) (h : rotEmptyRange l 
       rw [rol_list l a z r haz hz (by omega)]
   · rw [hv]
 
-theorem alg_ror_eq (l : Bits) (k : Int) (s e : Option Int) (h : rotEmptyRange l k s e = false) :
+theorem alg_ror_eq (l : Bits) (k : Int) (s e : Option Int) :
     Alg.ror l k s e = Spec.ror l k s e := by
   unfold Alg.ror Spec.ror
   split
@@ -240,12 +241,13 @@ theorem alg_ror_eq (l : Bits) (k : Int) (s e : Option Int) (h : rotEmptyRange l 
   rcases validateSlice_cases l.length s e with ⟨a, z, hv, haz, hz⟩ | hv
   · rw [hv]
     simp only
-    have hne : a ≠ z := by
-      unfold rotEmptyRange at h
-      rw [hv] at h
-      simp at h
-      exact h (by intro h0; apply h1; simp [h0]) (by omega)
-    rw [if_neg (by omega)]
+    by_cases hne : z - a = 0
+    · rw [if_pos hne]
+      have haz' : a = z := by omega
+      subst haz'
+      simp only [slc_self, List.drop_nil, List.take_nil, List.append_nil]
+      rw [List.take_append_drop]
+    rw [if_neg hne]
     have hr : k.toNat % (z - a) < z - a := Nat.mod_lt _ (by omega)
     generalize k.toNat % (z - a) = r at hr
     split
